@@ -214,6 +214,27 @@ def _impl(tier, seed, search):
         qe = UnitQuaternion(A); qm = UnitQuaternion(-qe.vec, norm=False, check=False); qo = qe * UnitQuaternion.Rx(0.7)
         ok, r = L.noraise('UQ eq/ne', lambda: (qe == qm, qe != qm, qe == qo, qe != qo, qe == UnitQuaternion(qe.vec), qe != UnitQuaternion(qe.vec)), dict(q=qe.vec), 'UnitQuaternion == / !=')
         if ok: L.check('UQ eq/ne', [bool(x_) for x_ in r] == [True, False, False, True, True, False], dict(q=qe.vec), '== and != of unit quaternions are not complementary / not blind to the sign', observed=[bool(x_) for x_ in r], sig='UQ:eq-ne')
+        # … at (numerical) half turns, where the scalar part is rounding noise of either sign: q and -q still compare equal
+        axh = inputs.unit_axis(g) if i % 2 else np.eye(3)[i % 3]; nzs = float(g.choice([1e-17, 6e-17, -6e-17, 0.0, 1e-16]))
+        qh1 = np.r_[nzs, axh]; qh2 = np.r_[nzs, -axh]; qh3 = np.r_[-nzs, -axh]
+        ok, r = L.noraise('UQ eq (half turn)', lambda: (UnitQuaternion(qh1, norm=False) == UnitQuaternion(qh2, norm=False), UnitQuaternion(qh1, norm=False) == UnitQuaternion(qh3, norm=False),
+                                                       UnitQuaternion(qh1, norm=False) != UnitQuaternion(qh2, norm=False), b.isequal(qh1, qh2, unitq=True)), dict(q1=qh1, q2=qh2), 'UnitQuaternion == at a half turn')
+        if ok: L.check('UQ eq (half turn)', [bool(x_) for x_ in r] == [True, True, False, True], dict(q1=qh1, q2=qh2), 'two quaternions of the same half turn (opposite vector parts, scalar parts at rounding level) do not compare equal', observed=[bool(x_) for x_ in r], sig='UQ:eq-ne:half-turn')
+        if i % 6 == 0:
+            for nm_, mkq in (('Rz', UnitQuaternion.Rz), ('Rx', UnitQuaternion.Rx), ('Ry', UnitQuaternion.Ry)):
+                ok, r = L.noraise(f'UQ.{nm_}(pi)==UQ.{nm_}(-pi)', lambda: (mkq(math.pi) == mkq(-math.pi), mkq(math.pi / 2) * mkq(math.pi / 2) == mkq(-math.pi / 2) * mkq(-math.pi / 2), UnitQuaternion(mkq(-math.pi).R) == mkq(-math.pi)), dict(ctor=nm_), 'comparison of half turns')
+                if ok: L.check(f'UQ.{nm_}(pi)==UQ.{nm_}(-pi)', all(bool(x_) for x_ in r), dict(ctor=nm_), f'UnitQuaternion.{nm_}(pi) and .{nm_}(-pi) (the same rotation) do not compare equal', observed=[bool(x_) for x_ in r], sig='UQ:eq-ne:half-turn')
+        # the product of the values of a multi-valued object is the same motion in every class, and computing it leaves the object as it was
+        if i % 3 == 1:
+            Ps_ = [SE3(inputs.se3(g, 2), check=False) for _ in range(3)]; want_ = np.linalg.multi_dot([x_.A for x_ in Ps_])
+            def prods_():
+                Xm = SE3([x_.A.copy() for x_ in Ps_], check=False); p1 = Xm.prod().A.copy()
+                qs_ = UnitQuaternion(Xm); return p1, (qs_[0] * qs_[1] * qs_[2]).R, Xm.Twist3().prod().SE3().A, SO3([x_.R for x_ in Xm]).prod().A, Xm.prod().A, Xm[0].A
+            ok, r = L.noraise('prod(all classes)', prods_, dict(n=3), 'prod() of a 3-valued object in each class')
+            if ok:
+                L.close('SE3.prod', r[0], want_, TOL, max(1.0, geom.tmag(want_)), dict(n=3), sig='prod:classes'); L.close('UQ(X).prod after X.prod', r[1], want_[:3, :3], TOL, 1.0, dict(n=3), what='the product of the values of UnitQuaternion(X) differs from the product of the rotations once X.prod() has been called', sig='prod:classes')
+                L.close('Twist3(X).prod after X.prod', r[2], want_, TOL, max(1.0, geom.tmag(want_)), dict(n=3), sig='prod:classes'); L.close('SO3.prod', r[3], want_[:3, :3], TOL, 1.0, dict(n=3), sig='prod:classes')
+                L.close('SE3.prod (again)', r[4], want_, TOL, max(1.0, geom.tmag(want_)), dict(n=3), what='a second X.prod() differs from the first', sig='prod:classes'); L.close('X[0] after prod', r[5], Ps_[0].A, TOL, max(1.0, geom.tmag(Ps_[0].A)), dict(n=3), what='X.prod() changed X[0]', sig='prod:classes')
         # product of a sequence of twists (3 and 4 values) equals the product of the motions
         if i % 3 == 0:
             Xs_ = [SE3(inputs.se3(g, 2), check=False) for _ in range(4)]
